@@ -126,6 +126,12 @@ pub enum Op {
     FutRecv { h: u8 },
     FutPoll { f: u8, new_waker: bool },
     FutDrop { f: u8 },
+    /// one executor drives ALL of the task's live futures to completion (like `join!` / a single-threaded
+    /// runtime): polls those that are new or woken, parks when none is; `shared_waker`: all futures get the same
+    /// waker and every wake-up re-polls all pending ones (what `join!` does), otherwise one waker per future;
+    /// `p_spurious` / `p_new_waker`: percentages for polling a future that was not woken / with a fresh waker.
+    /// Every poll is recorded as its own `FutPoll`, every park phase as a `FutJoin` record.
+    FutJoin { shared_waker: bool, p_spurious: u8, p_new_waker: u8 },
     // ---- handles
     Clone { h: u8, kind: CloneKind },
     /// to_sync / to_async (consumes the handle, puts the converted one in the same slot)
@@ -168,6 +174,7 @@ impl Op {
             Op::FutRecv { .. } => "fut_recv",
             Op::FutPoll { .. } => "fut_poll",
             Op::FutDrop { .. } => "fut_drop",
+            Op::FutJoin { .. } => "fut_join",
             Op::Clone { .. } => "clone",
             Op::Convert { .. } => "convert",
             Op::DropHandle { .. } => "drop_handle",
@@ -314,6 +321,11 @@ pub struct Case {
     /// handle 0 = sender root, handle 1 = receiver root)
     #[serde(default)]
     pub epilogue: Vec<Op>,
+    /// "balanced executors" workload: total sends == total receives, executor tasks issue all their futures
+    /// before joining them, the other tasks are one-sided, nobody closes and main keeps the roots: every
+    /// operation completes in every schedule by specification. The shrinker must not drop operations.
+    #[serde(default)]
+    pub balanced: bool,
 }
 
 impl Case {
